@@ -8,8 +8,9 @@ CONSTANTS
   ScanMemo = "none"
   OperandScope = "per call"
   SubqueryColumns = "per table object"
+  ResultScope = "per execute call"
   JobSet = "3rows"
 SPECIFICATION FairSpec
-INVARIANTS TypeOK SerialInv OwnParameters OwnRow OwnStatement OwnOperands OwnNames
+INVARIANTS TypeOK SerialInv OwnParameters OwnRow OwnStatement OwnOperands OwnNames OwnResults
 PROPERTIES NonInterference NoSharedState JobConstant Termination
 CHECK_DEADLOCK FALSE
